@@ -629,7 +629,7 @@ func init() {
 	// ---------------------------------------------------------------- C19 / C20 / C21
 	register(&checkSpec{
 		ID:   "C19",
-		Rule: "source = one of 58 concrete XGo contexts (statements, operators, calls, command calls, slice literals, comprehensions, ranges, trailing //, /* */ and # comments, doc comments, error-wrap, lambda, struct fields, var and import blocks, string interpolation, unit literals, switch, redundant parentheses and nested operands, multi-line argument and element lists, one-line function bodies, comments inside one-line bodies, lambdas, command calls, comprehensions, before c-string literals, at the end of the file) around a window of <= N symbolic bytes; when the real parser accepts it the real format.Source runs on it and its output is parsed again: no error and an equal tree",
+		Rule: "source = one of 77 concrete XGo contexts (statements, operators, calls, command calls, slice literals, comprehensions, ranges, trailing //, /* */ and # comments, doc comments, error-wrap, lambda, struct fields, var and import blocks, string interpolation, unit literals, switch, redundant parentheses and nested operands, multi-line argument and element lists, one-line function bodies, comments inside one-line bodies, lambdas, command calls, comprehensions, before c-string literals, at the end of the file, one-line type bodies, declaration groups with aliases, one-line function literals around the 100-column one-line limit written with surplus blanks) around a window of <= N symbolic bytes; when the real parser accepts it the real format.Source runs on it and its output is parsed again: no error and an equal tree",
 		Assumptions: []string{
 			"bound: windows of <= N ASCII bytes (no CR) in the listed contexts; program shapes and layout decisions over many lines are outside",
 			"tree comparison through signatures generated from the current ast package (kinds, operator tokens, names, literal values, structure); comments, explicit empty statements, redundant nested parentheses ((e)) and the order of import specs are not compared (C19)",
@@ -637,13 +637,13 @@ func init() {
 		},
 		Harnesses: []harnessSpec{
 			{Name: "VxC19", Pkg: "github.com/goplus/xgo/format", Files: []string{"c19/c19.go", "gen:astkinds:ast"},
-				Quick: map[string]int{"N": 2, "WHICH": 19, "KF_DECLSEMI": 0}, Thorough: map[string]int{"N": 3, "WHICH": 19, "KF_DECLSEMI": 0}, Variants: c15Variants(58), ThoroughCore: 12, MaxSteps: 30_000_000},
+				Quick: map[string]int{"N": 2, "WHICH": 19, "KF_DECLSEMI": 0}, Thorough: map[string]int{"N": 3, "WHICH": 19, "KF_DECLSEMI": 0}, Variants: c15Variants(77), ThoroughCore: 12, MaxSteps: 30_000_000},
 		},
 	})
 
 	register(&checkSpec{
 		ID:   "C20",
-		Rule: "source = one of 58 concrete XGo contexts (statements, operators, calls, command calls, slice literals, comprehensions, ranges, trailing //, /* */ and # comments, doc comments, error-wrap, lambda, struct fields, var and import blocks, string interpolation, unit literals, switch, redundant parentheses and nested operands, multi-line argument and element lists, one-line function bodies, comments inside one-line bodies, lambdas, command calls, comprehensions, before c-string literals, at the end of the file) around a window of <= N symbolic bytes; when the real parser accepts it the real format.Source runs on it and its output is formatted again and must not change",
+		Rule: "source = one of 77 concrete XGo contexts (statements, operators, calls, command calls, slice literals, comprehensions, ranges, trailing //, /* */ and # comments, doc comments, error-wrap, lambda, struct fields, var and import blocks, string interpolation, unit literals, switch, redundant parentheses and nested operands, multi-line argument and element lists, one-line function bodies, comments inside one-line bodies, lambdas, command calls, comprehensions, before c-string literals, at the end of the file, one-line type bodies, declaration groups with aliases, one-line function literals around the 100-column one-line limit written with surplus blanks) around a window of <= N symbolic bytes; when the real parser accepts it the real format.Source runs on it and its output is formatted again and must not change",
 		Assumptions: []string{
 			"bound: windows of <= N ASCII bytes (no CR) in the listed contexts; program shapes and layout decisions over many lines are outside",
 			"tree comparison through signatures generated from the current ast package (kinds, operator tokens, names, literal values, structure); comments, explicit empty statements, redundant nested parentheses ((e)) and the order of import specs are not compared (C19)",
@@ -651,13 +651,13 @@ func init() {
 		},
 		Harnesses: []harnessSpec{
 			{Name: "VxC19", Pkg: "github.com/goplus/xgo/format", Files: []string{"c19/c19.go", "gen:astkinds:ast"},
-				Quick: map[string]int{"N": 2, "WHICH": 20, "KF_DECLSEMI": 0, "KF_ONELINE_EMPTY": 0, "KF_PAREN_LINES": 0, "KF_ENV_LINES": 0}, Thorough: map[string]int{"N": 3, "WHICH": 20, "KF_DECLSEMI": 0, "KF_ONELINE_EMPTY": 0, "KF_PAREN_LINES": 0, "KF_ENV_LINES": 0}, Variants: c15Variants(58), ThoroughCore: 12, MaxSteps: 30_000_000},
+				Quick: map[string]int{"N": 2, "WHICH": 20, "KF_DECLSEMI": 0, "KF_ONELINE_EMPTY": 0, "KF_PAREN_LINES": 0, "KF_ENV_LINES": 0}, Thorough: map[string]int{"N": 3, "WHICH": 20, "KF_DECLSEMI": 0, "KF_ONELINE_EMPTY": 0, "KF_PAREN_LINES": 0, "KF_ENV_LINES": 0}, Variants: c15Variants(77), ThoroughCore: 12, MaxSteps: 30_000_000},
 		},
 	})
 
 	register(&checkSpec{
 		ID:   "C21",
-		Rule: "source = one of 58 concrete XGo contexts (statements, operators, calls, command calls, slice literals, comprehensions, ranges, trailing //, /* */ and # comments, doc comments, error-wrap, lambda, struct fields, var and import blocks, string interpolation, unit literals, switch, redundant parentheses and nested operands, multi-line argument and element lists, one-line function bodies, comments inside one-line bodies, lambdas, command calls, comprehensions, before c-string literals, at the end of the file) around a window of <= N symbolic bytes; when the real parser accepts it the real format.Source runs on it and the COMMENT tokens of input and output (real scanner) must be the same sequence",
+		Rule: "source = one of 77 concrete XGo contexts (statements, operators, calls, command calls, slice literals, comprehensions, ranges, trailing //, /* */ and # comments, doc comments, error-wrap, lambda, struct fields, var and import blocks, string interpolation, unit literals, switch, redundant parentheses and nested operands, multi-line argument and element lists, one-line function bodies, comments inside one-line bodies, lambdas, command calls, comprehensions, before c-string literals, at the end of the file, one-line type bodies, declaration groups with aliases, one-line function literals around the 100-column one-line limit written with surplus blanks) around a window of <= N symbolic bytes; when the real parser accepts it the real format.Source runs on it and the COMMENT tokens of input and output (real scanner) must be the same sequence",
 		Assumptions: []string{
 			"bound: windows of <= N ASCII bytes (no CR) in the listed contexts; program shapes and layout decisions over many lines are outside",
 			"tree comparison through signatures generated from the current ast package (kinds, operator tokens, names, literal values, structure); comments, explicit empty statements, redundant nested parentheses ((e)) and the order of import specs are not compared (C19)",
@@ -665,7 +665,7 @@ func init() {
 		},
 		Harnesses: []harnessSpec{
 			{Name: "VxC19", Pkg: "github.com/goplus/xgo/format", Files: []string{"c19/c19.go", "gen:astkinds:ast"},
-				Quick: map[string]int{"N": 2, "WHICH": 21, "KF_DECLSEMI": 0}, Thorough: map[string]int{"N": 3, "WHICH": 21, "KF_DECLSEMI": 0}, Variants: c15Variants(58), ThoroughCore: 12, MaxSteps: 30_000_000},
+				Quick: map[string]int{"N": 2, "WHICH": 21, "KF_DECLSEMI": 0}, Thorough: map[string]int{"N": 3, "WHICH": 21, "KF_DECLSEMI": 0}, Variants: c15Variants(77), ThoroughCore: 12, MaxSteps: 30_000_000},
 		},
 	})
 }
